@@ -11,7 +11,7 @@ instruction and the pending state after each call.  Oracle: every call's outcome
 of the same bytes on a disassembler with no history, its bytes must be a prefix of its own input, and
 `_disassembler__i` must be None after the call, whatever the exit path.
 """
-import sys, types
+import sys, types, json, subprocess, os
 from common import *
 import isa
 from amoco.arch import core as acore
@@ -85,7 +85,7 @@ class Holder(object):
     pass
 
 
-def run_histories(ck, drv, label, d, specs, be, maxlen, r, nhist, hlen, pool, kargs_pool, ties_broken):
+def run_histories(ck, drv, label, d, specs, be, maxlen, r, nhist, hlen, pool, kargs_pool, ties_broken, other=None):
     """histories of decode calls on the single disassembler object d"""
     index = {id(s): k for k, s in enumerate(specs)}
     spk = [isa.speck(k, s) for k, s in enumerate(specs)]
@@ -98,6 +98,28 @@ def run_histories(ck, drv, label, d, specs, be, maxlen, r, nhist, hlen, pool, ka
         res = isa.real_decode(d, bs, **dict(kw))
         fresh[key] = (res[0], isa.fingerprint(res[1]) if res[0] == "ok" else res[1])
         isa.reset(d)
+    # second pass over the whole pool in the opposite order: every input is decoded again at a
+    # different point of the process history (state kept in spec / helper modules shows here)
+    for key in reversed(pool):
+        bs, kw = key
+        isa.reset(d)
+        res = isa.real_decode(d, bs, **dict(kw))
+        fp = (res[0], isa.fingerprint(res[1]) if res[0] == "ok" else res[1])
+        ck.case((label, "again", key), nontrivial=res[0] == "ok")
+        if fp != fresh[key]:
+            ck.report("C11:%s:history-dependent" % label, "%s: decode(%s) gives %r the first time and %r after the other inputs of the pool were decoded" % (label, bs.hex(), fresh[key], fp),
+                      "oracle", "Amoco.Dis.Props11.call_history_independent", case={"isa": label, "history": [[b.hex(), dict(k)] for b, k in pool], "again": bs.hex()},
+                      real=fp, expected=fresh[key])
+            break
+    isa.reset(d)
+    if other is not None:
+        # the same pool decoded by another process, from pristine modules, in the opposite order
+        for key, o in zip(pool, other):
+            if json.dumps(fresh[key], default=str) != o:
+                ck.report("C11:%s:history-dependent" % label, "%s: decode(%s) gives %s in this process and %s in a process that decoded the pool in the opposite order" % (label, key[0].hex(), json.dumps(fresh[key], default=str)[:300], o[:300]),
+                          "oracle", "Amoco.Dis.Props11.call_history_independent", case={"isa": label, "history": [[b.hex(), dict(k)] for b, k in pool], "again": key[0].hex()},
+                          real=fresh[key], expected=o)
+                break
     for h in range(nhist):
         hist = [r.choice(pool) for _ in range(hlen)]
         isa.reset(d)
@@ -154,6 +176,35 @@ def run_histories(ck, drv, label, d, specs, be, maxlen, r, nhist, hlen, pool, ka
             ck.sample({"isa": label, "history": [b.hex() for b, _ in hist[:6]], "real": [x[0][0] for x in reals[:6]], "model": ans[:6]})
 
 
+def other_process(pools):
+    """decode every pool in a fresh interpreter, in the opposite order → {isa: [json fingerprint per pool entry]}"""
+    rq = json.dumps({n: [bs.hex() for bs, _ in p] for n, p in pools.items()})
+    p = subprocess.run([sys.executable, os.path.abspath(__file__), "--worker"], input=rq, stdout=subprocess.PIPE, stderr=subprocess.PIPE, text=True)
+    if p.returncode != 0:
+        raise InternalError("C11 worker failed: " + p.stderr[-800:])
+    return json.loads(p.stdout)
+
+
+def worker():
+    rq = json.load(sys.stdin)
+    isas, bad = isa.load_all(sorted(rq))
+    out = {}
+    for name in sorted(rq):
+        if name not in isas:
+            continue
+        I = isas[name]
+        if I.nsets != 1:
+            I.set_mode(0)
+        res = []
+        for h in reversed(rq[name]):
+            isa.reset(I.dis)
+            x = isa.real_decode(I.dis, bytes.fromhex(h))
+            res.append(json.dumps((x[0], isa.fingerprint(x[1]) if x[0] == "ok" else x[1]), default=str))
+        out[name] = res[::-1]
+    json.dump(out, sys.stdout)
+    return 0
+
+
 def main(tier):
     ck = Check("C11", tier)
     quick = tier == "quick"
@@ -177,6 +228,7 @@ def main(tier):
     # ---- real ISA modules -------------------------------------------------------------------------------
     isas, bad = isa.load_all()
     ck.cov["isa_modules"] = sorted(isas)
+    pools = {}
     for name in sorted(isas):
         I = isas[name]
         if I.nsets != 1:
@@ -190,7 +242,34 @@ def main(tier):
         pool = [(bs, ()) for _, bs in inputs]
         for p in pf[:6]:
             pool.append((isa.directed_bytes(p, e, r, tail=0), ()))      # truncated right after a prefix
-        run_histories(ck, drv, "%s/0" % name, I.dis, specs, I.be, I.maxlen, r, (6 if quick else 60), 10, pool, None, ties_broken)
+        # addressing forms: for a few variable-length specs, every value of the first tail byte (ModRM and
+        # the like), bare and behind every prefix — helper modules shared by many specs are reached through it
+        var = [s for s in specs if s.size == 0 and s.pfx is not True]
+        if var:
+            pfb = [b""] + [isa.directed_bytes(p, e, r, tail=0) for p in pf]
+            chosen = []
+            for s in r.sample(var, len(var)):
+                head = isa.directed_bytes(s, e, r, tail=0)
+                isa.reset(I.dis)
+                if isa.real_decode(I.dis, head + bytes(r.getrandbits(8) for _ in range(8)))[0] == "ok":
+                    chosen.append((s, head))          # decodes without a mandatory prefix
+                if len(chosen) >= (4 if quick else 16):
+                    break
+            for s, head in chosen:
+                for p in pfb:
+                    for b in range(256):
+                        # the last byte of the fixed part carries the free field bits (ModRM is inside
+                        # the spec's fixed size), the first tail byte the SIB / displacement
+                        pool.append((p + head[:-1] + bytes([b]) + bytes(r.getrandbits(8) for _ in range(8)), ()))
+                        if b % 4 == 0:
+                            pool.append((p + head + bytes([b]) + bytes(r.getrandbits(8) for _ in range(8)), ()))
+        pools[name] = pool
+    others = other_process(pools)
+    for name in sorted(isas):
+        I = isas[name]
+        specs = isa.module_specs(I, 0)
+        run_histories(ck, drv, "%s/0" % name, I.dis, specs, I.be, I.maxlen, r, (6 if quick else 60), 10, pools[name], None, ties_broken,
+                      other=others.get(name))
     drv.close()
     for b in broken:
         ck.report("C11:proof-obligation", "proof obligation broken: %s" % b[:300], "proof-obligation", b[:2000], failing_input_found=False)
@@ -213,4 +292,6 @@ def replay(path):
     return isa.replay_decode_case(json.load(open(path)))
 
 if __name__ == "__main__":
+    if sys.argv[1:] == ["--worker"]:
+        sys.exit(worker())
     sys.exit(main(sys.argv[1] if len(sys.argv) > 1 else "quick"))
